@@ -114,6 +114,10 @@ def gen_recipe(rng, mb, kind=None):
             else:
                 op = rng.choice(["*", "*"] + [o for o in fr.OPS if o != "*"])
                 cmds.append({"k": "add", "regex": rx(), "operation": op, "cfg": UNIFORM[rng.choice(list(UNIFORM))], "alg": "min_max_uniform_quantize"})
+    if rng.random() < 0.25:
+        # the configs spelt with STRINGS where the API also takes enum members (what from_dict / a recipe file delivers)
+        for c in cmds:
+            c["use_enum"] = False
     return cmds
 
 
@@ -128,7 +132,7 @@ def apply_recipe(q, cmds):
                 pass
             continue
         try:
-            cfg = None if c["cfg"] is None else fr.mk_cfg(c["cfg"])
+            cfg = None if c["cfg"] is None else fr.mk_cfg(c["cfg"], c.get("use_enum", True))
             q.update_quantization_recipe(c["regex"], c["operation"], cfg, c["alg"])
             n += 1
         except ValueError:
